@@ -30,7 +30,7 @@ SPEC = {
     "translators": [translate_glue, build_lsp],
     "tiers": {
         "quick": {"cases": 330, "extra": {"lexreps": 4}},
-        "thorough": {"cases": 9000, "extra": {"lexreps": 99}},
+        "thorough": {"cases": 20000, "extra": {"lexreps": 99}},
     },
     # model and implementation are compared on the formatters' complete replies; what the property
     # itself says is evaluated on the implementation's output by the oracle (extra()), so a
@@ -232,23 +232,40 @@ def replay(obj):
 
 
 MANIFEST["level_text"] = (
-    "Proved (Lean, unbounded): the glue rule generated from should_glue never glues a token-class pair outside an explicit "
-    "hazard table unless the pair is class-safe (c15_glue_safe_partial, decided over all 46x46x2 class pairs), hence a line "
-    "re-emitted by format_line_tokens re-lexes to the same tokens up to keyword case for every hazard-free token list and "
-    "every spacing style / keyword case (c15_line_tokens, relative to the abstract lexer interface); comment/pragma lines are "
-    "passed through verbatim modulo indentation (c15_verbatim); the edit built by format_lines_edit replaces exactly source "
-    "lines a..b by formatted lines a..b (c15_range_edit); the aligned end-keyword style never underflows the indent "
-    "(c15_no_panic_aligned); the web formatter only changes leading white space / trailing blanks of lines "
-    "(c15_web_lines, c15_web_nonws) and is idempotent for texts without a stray CR (c15_web_idempotent_partial). The code "
-    "violates the full property in nine ways, each with a proved counterexample on the model and a replay through the real "
-    "LSP server / WebIdeState (known_findings.json)."
+    "Proved in Lean 4, unbounded, about a function-by-function model of both formatters whose glue table, keyword lists, "
+    "block tables and vendor profiles are regenerated from the Rust source on every run: (1) c15_glue_table / "
+    "c15_glue_safe_partial - decided by the kernel over all 46x46 token-class pairs and both spacing styles: should_glue "
+    "never writes two tokens without a separator unless the pair is class-safe or is one of the 44 recorded hazard pairs; "
+    "c15_line_tokens - hence the line emitted by format_line_tokens lexes to exactly the tokens it was made from (keywords "
+    "re-cased, c15_recase) for every hazard-free token list, every style and keyword case, relative to the abstract lexer "
+    "interface LexIface; (2) c15_verbatim_block / _line / _wrap / c15_verbatim_document - every block-comment line and every "
+    "line carrying a line comment or pragma reaches the final output unchanged up to indentation, in order, through the colon "
+    "alignment, assignment alignment and wrapping passes for every configuration; (3) c15_range_edit - the edit built by "
+    "format_lines_edit replaces exactly source lines a..b by formatted lines a..b (LF texts, range not touching the last "
+    "line); c15_full_edit - full formatting is no edit or one whole-document edit; (4) c15_no_panic_aligned - with "
+    "endKeywordStyle=aligned the line loop never underflows the indent; (5) web formatter: c15_web_lines (each output line = "
+    "spaces ++ source line without leading white space / trailing blanks), c15_web_nonws (non-white-space text preserved for "
+    "every text), c15_web_idempotent_partial (idempotent on every text without a stray CR). The code VIOLATES the full "
+    "property in eleven ways; each has a proved counterexample on the model (c15_glue_safe_counterexample, "
+    "c15_glue_counterexample_typed_literal [valid programs: `x MOD INT#5` -> `x MODINT#5`], _comment, _compact, "
+    "c15_range_edit_counterexample, c15_wrap_idempotent_counterexample, c15_panic_counterexample, c15_pragma_counterexample / "
+    "c15_tokenless_line_dropped, c15_var_colon_counterexample, c15_web_idempotent_counterexample, "
+    "c15_web_comment_counterexample), a witness replayed on every run through the real LSP server / WebIdeState, and an open "
+    "entry in known_findings.json matched by the decidable guard of the corresponding _partial theorem."
 )
 MANIFEST["level_note"] = (
-    "Tested, not proved: the alignment and wrapping passes (modelled and compared with the implementation on every run), "
-    "idempotence of the LSP formatter, token preservation by the web formatter (follows from c15_web_lines only for "
-    "single-line tokens). Trusted: the Lean kernel; the hand model (tied by comparing complete replies of "
-    "textDocument/formatting, rangeFormatting, onTypeFormatting and WebIdeState::format_source); the translator; the abstract "
-    "lexer interface LexIface whose pair-safety table is validated against trust_syntax::lex on representative texts each "
-    "run (the real lexer has backtracking quirks, e.g. `1.5ELSE` lexes as `1.5E`,`LSE`, which the table records). Comments are "
-    "compared modulo trailing blanks of line comments and CRLF/LF inside multi-line comments."
+    "Correspondence: complete replies of textDocument/formatting, rangeFormatting, onTypeFormatting (trust-lsp binary over "
+    "stdio; client settings through every key alias, FormattingOptions, vendor profile via trust-lsp.toml) and of "
+    "WebIdeState::format_source are compared with the model on every generated case, plus second formatting (idempotence) "
+    "and an oracle that evaluates the property's own statement on the implementation's output with trust_syntax::lex. "
+    "Tested, not proved: that the alignment / wrapping passes change only white space outside verbatim lines, idempotence of "
+    "the LSP formatter, document-level token preservation (c15_line_tokens is per line), token preservation by the web "
+    "formatter (c15_web_lines gives it only for single-line tokens). Trusted: Lean kernel + propext/Quot.sound/"
+    "Classical.choice; the hand model; the translator (fails closed on a restructured should_glue); the harness; LexIface: "
+    "its pair-safety table classSafe is validated against the real lexer each run (soundness on every class pair x "
+    "representative texts x continuations, and a real-lexer witness for every recorded hazard), its locality clause is only "
+    "exercised by the oracle. The real lexer has backtracking quirks (`1.5ELSE` lexes as `1.5E`,`LSE`; `D#` is an Ident in "
+    "`D#2024-01 ;`) which the table records. Comments are compared modulo trailing blanks of line comments and CRLF/LF inside "
+    "multi-line comments / pragmas. A failure of the oracle is a violation unless the guard of a _partial theorem is violated "
+    "on that input AND the matching finding is open in known_findings.json."
 )
